@@ -72,6 +72,14 @@ impl<'a> ParseState<'a> {
         &&& r.far() == self.far()
     }
 
+    // like `moved`, but the recorded error may have changed (closures and optionals fold errors into the state)
+    pub open spec fn moved_any_far(&self, r: ParseState<'a>, n: int) -> bool {
+        &&& 0 <= n <= self.bytes().len()
+        &&& is_char_boundary(self.bytes(), n)
+        &&& r.idx() == self.idx() + n
+        &&& r.bytes() =~= self.bytes().subrange(n, self.bytes().len() as int)
+    }
+
     // other is a state of the same parse at or after self
     pub open spec fn reaches(&self, other: &ParseState) -> bool {
         &&& self.idx() <= other.idx()
@@ -258,6 +266,21 @@ pub mod lib {
         lemma_boundary_compose(a.bytes(), n, m);
     }
 
+    pub broadcast proof fn lemma_moved_any_trans<'a>(a: ParseState<'a>, b: ParseState<'a>, c: ParseState<'a>, n: int, m: int)
+        requires #[trigger] a.moved_any_far(b, n), #[trigger] b.moved_any_far(c, m),
+        ensures a.moved_any_far(c, n + m),
+    {
+        lemma_str_bytes_valid(a.rest());
+        assert(b.bytes() =~= a.bytes().subrange(n, a.bytes().len() as int));
+        lemma_boundary_compose(a.bytes(), n, m);
+    }
+
+    pub broadcast proof fn lemma_moved_is_moved_any<'a>(a: ParseState<'a>, b: ParseState<'a>, n: int)
+        requires #[trigger] a.moved(b, n),
+        ensures a.moved_any_far(b, n),
+    {
+    }
+
     // boundaries compose: a boundary of the suffix at a boundary is a boundary of the whole
     pub proof fn lemma_boundary_compose(b: Seq<u8>, i: int, n: int)
         requires
@@ -326,6 +349,8 @@ pub mod lib {
         lemma_rest_chars,
         lemma_ascii_first_boundary,
         lemma_moved_trans,
+        lemma_moved_any_trans,
+        lemma_moved_is_moved_any,
         lemma_prefix_boundary,
         axiom_starts_with_str,
         axiom_starts_with_char,
